@@ -371,7 +371,7 @@ func (e *Engine) mergeStates(sts []*State, extras [][]Val) (*State, []Val) {
 			continue
 		}
 		m.cells[c] = mergeVal(vs)
-		if os.Getenv("GOVC_DEBUG_MERGE") == c.name {
+		if d := os.Getenv("GOVC_DEBUG_MERGE"); d != "" && d == c.name {
 			fmt.Fprintf(os.Stderr, "merge cell %s: %v -> %v\n", c.name, vs, m.cells[c].L)
 		}
 	}
